@@ -241,3 +241,6 @@ def replay(ctx, payload):
     ctx.out.oracle_failures.clear()
     check_cases(ctx, "replay", [(inp["rows"], inp["bait"], inp["ops"])])
     return {"fails": bool(ctx.out.oracle_failures or ctx.out.disagreements), "oracle": ctx.out.oracle_failures, "disagreements": ctx.out.disagreements}
+
+
+LEVEL_NOTE = "; ".join(TRUSTED) + '. NEW (T1b): the five derived figures are translated from the current source; `model_figures_are_source`, `source_start/end_row_bait_overlap` = interval-intersection size for all integers (Properties/C18Source.lean)'
